@@ -190,3 +190,11 @@ def ratio_boundary_spec(draw, max_geos=8, allow_budget=False, allow_share=False)
   params['n_geos_max'] = None
   return {'panel': panel, 'elig': {'rows': rows, 'as_index': draw(st.booleans()), 'style': 'ratio-boundary', 'col_order': None, 'row_labels': None},
           'params': params, 'history': None}
+
+
+def shared_capped(spec):
+  """Map: a capped searcher (n_geos_max) whose data object is also used by an uncapped one between its searches."""
+  spec['history'] = 'shared-data'
+  if spec['params'].get('n_geos_max') is None:
+    spec['params']['n_geos_max'] = max(2, len(spec['panel']['ids']) - 1)
+  return spec
